@@ -62,7 +62,10 @@ class Clean(DoitCmdBase):
                 task.clean(self.outstream, dryrun)
                 if forget_tasks:
                     self.dep_manager.remove(task.name)
-        self.dep_manager.close()
+        # a dry-run must not write anything, closing the DB (re-)writes
+        # the whole file on some backends (json)
+        if not dryrun:
+            self.dep_manager.close()
 
     def _expand(self, clean_list):
         result = []
